@@ -652,6 +652,31 @@ func (g *Gen) intrinsic(in *ssa.Call, key string, common *ssa.CallCommon, args [
 		}
 	default:
 		if strings.HasPrefix(key, "math.") {
+			// domain obligations: outside these ranges the function returns NaN
+			fpm := g.fmode == "fp"
+			dom := func(cond string, what string) {
+				g.safeObl("safe-nan", cond, reach, pos, what)
+			}
+			switch key {
+			case "math.Log1p":
+				if fpm {
+					dom("(or (fp.isNaN "+args[0].S+") (fp.geq "+args[0].S+" (fp.neg ((_ to_fp 11 53) RNE 1.0))))", "math.Log1p argument >= -1 (NaN otherwise)")
+				} else {
+					dom("(>= "+args[0].S+" (- 1.0))", "math.Log1p argument >= -1 (NaN otherwise)")
+				}
+			case "math.Log":
+				if fpm {
+					dom("(or (fp.isNaN "+args[0].S+") (fp.geq "+args[0].S+" (_ +zero 11 53)))", "math.Log argument >= 0 (NaN otherwise)")
+				} else {
+					dom("(>= "+args[0].S+" 0.0)", "math.Log argument >= 0 (NaN otherwise)")
+				}
+			case "math.Sqrt":
+				if fpm {
+					dom("(or (fp.isNaN "+args[0].S+") (fp.geq "+args[0].S+" (_ +zero 11 53)))", "math.Sqrt argument >= 0 (NaN otherwise)")
+				} else {
+					dom("(>= "+args[0].S+" 0.0)", "math.Sqrt argument >= 0 (NaN otherwise)")
+				}
+			}
 			r := g.mathCall(strings.TrimPrefix(key, "math."), args)
 			if r == nil {
 				return false
@@ -768,6 +793,20 @@ func (c *Ctx) mathCall(name string, args []*SV) *SV {
 			}
 		} else {
 			_ = zero
+			F := "(_ FloatingPoint 11 53)"
+			one := "((_ to_fp 11 53) RNE 1.0)"
+			z := "(_ +zero 11 53)"
+			switch name {
+			case "Exp":
+				c.mathAxiom("fp-exp", fmt.Sprintf("(forall ((x %[1]s)) (! (and (= (fp.isNaN x) (fp.isNaN (m.exp x))) (=> (not (fp.isNaN x)) (fp.geq (m.exp x) %[3]s)) (=> (fp.leq x %[3]s) (fp.leq (m.exp x) %[2]s))) :pattern ((m.exp x))))", F, one, z))
+			case "Log1p":
+				c.mathAxiom("fp-log1p", fmt.Sprintf("(forall ((x %[1]s)) (! (and (=> (fp.isNaN x) (fp.isNaN (m.log1p x))) (=> (fp.lt x (fp.neg %[2]s)) (fp.isNaN (m.log1p x))) (=> (fp.geq x %[3]s) (and (fp.geq (m.log1p x) %[3]s) (=> (not (fp.isInfinite x)) (not (fp.isInfinite (m.log1p x))))))) :pattern ((m.log1p x))))", F, one, z))
+			case "Log":
+				c.mathAxiom("fp-log", fmt.Sprintf("(forall ((x %[1]s)) (! (and (=> (fp.isNaN x) (fp.isNaN (m.log x))) (=> (fp.lt x %[3]s) (fp.isNaN (m.log x))) (=> (fp.geq x %[2]s) (fp.geq (m.log x) %[3]s))) :pattern ((m.log x))))", F, one, z))
+			case "Pow":
+				two := "((_ to_fp 11 53) RNE 2.0)"
+				c.mathAxiom("fp-pow2", fmt.Sprintf("(forall ((y %[1]s)) (! (and (= (fp.isNaN y) (fp.isNaN (m.pow %[4]s y))) (=> (not (fp.isNaN y)) (fp.geq (m.pow %[4]s y) %[3]s)) (=> (fp.leq y %[3]s) (fp.leq (m.pow %[4]s y) %[2]s))) :pattern ((m.pow %[4]s y))))", F, one, z, two))
+			}
 		}
 		if name == "Pow" {
 			return &SV{S: "(" + fn + " " + a(0) + " " + a(1) + ")", T: f64}
